@@ -705,6 +705,10 @@ fn preds_j<'tcx>(cx: &Cx<'tcx>, did: DefId) -> J {
     J::A(v)
 }
 
+fn gens_empty<'tcx>(tcx: TyCtxt<'tcx>, did: DefId) -> bool {
+    tcx.generics_of(did).own_params.is_empty()
+}
+
 fn items_j<'tcx>(cx: &Cx<'tcx>) -> (J, J, J, J) {
     let tcx = cx.tcx;
     let mut impls = vec![];
@@ -749,8 +753,23 @@ fn items_j<'tcx>(cx: &Cx<'tcx>) -> (J, J, J, J) {
                     if it.is_type() {
                         let t = tcx.type_of(it.def_id).instantiate_identity().skip_norm_wip();
                         a.push(("ty", J::s(cx.ty_s(t))));
+                        let g = tcx.generics_of(it.def_id);
+                        let gn: Vec<J> = g
+                            .own_params
+                            .iter()
+                            .filter(|p| !matches!(p.kind, ty::GenericParamDefKind::Lifetime))
+                            .map(|p| J::s(p.name.to_string()))
+                            .collect();
+                        a.push(("generics", J::A(gn)));
                     } else if it.is_fn() {
                         a.push(("fn", J::B(true)));
+                    } else if gens_empty(tcx, did) {
+                        // associated const of a non-generic impl: record its evaluated value when it is a plain scalar
+                        if let Ok(v) = tcx.const_eval_poly(it.def_id) {
+                            if let Some(si) = v.try_to_scalar_int() {
+                                a.push(("const", J::s(format!("{:?}", si))));
+                            }
+                        }
                     }
                     assoc.push(J::O(a));
                 }
